@@ -83,3 +83,7 @@ def run(ctx, args):
         "acceptance of a single consensus-class snapshot through validateKernelSnapshot is exercised with downstream-valid pledge transactions; other classes only show soundness (accepted => conditions)",
         "genesis-input transactions (which bypass the link check when the ledger is loaded) and mainnet legacy branches are outside the explored space",
     ]
+    if ctx.tier == "thorough":
+        # system level: durable writes of a real multi-node network (spec/Net/Trace_Net.tla)
+        import netrace
+        netrace.run_net(ctx)
